@@ -30,7 +30,9 @@ def getChunk (j : Json) : Except String Chunk := do
   let off ← get? Nat j "off"
   let cap ← get? Nat j "cap"
   let rows ← get? Nat j "rows"
-  pure { inds, vals, off, cap, rows }
+  let col ← get? Nat j "col"          -- col_idx the importer is called with
+  let ncols ← get? Nat j "ncols"      -- column_inds.shape[0] = len(column_offsets) - 1
+  pure { inds, vals, off, cap, rows, col, ncols }
 
 def getChunks (j : Json) : Except String (List Chunk) := do
   let arr ← get? (Array Json) j "chunks"
